@@ -61,7 +61,14 @@ def compare(case: Case, text: str):
     if a[0] == 'budget':
         return 'ref-budget', a, None, r
     b = case.tatsu(text)
-    return relation(a, b, bool(r.nonw)), a, b, r
+    tag = relation(a, b, bool(r.nonw))
+    if tag is not None and 'failing-constant' in r.nonw:
+        # second reading of a constant that fails to evaluate: the failure is local to the expression
+        a2, r2 = ref_run(case.g, text, case.start, settings=dict(case.settings, constfail='local'), max_steps=30000)
+        if a2[0] != 'budget' and relation(a2, b, bool(r2.nonw)) is None:
+            r.nonw.add('failing-constant:local-reading')
+            return None, a2, b, r
+    return tag, a, b, r
 
 
 def shrink_case(g, start, text, tag, route='object', settings=None, parse_settings=None, budget=200):
